@@ -62,6 +62,12 @@ class TroughSuite:
             for n in (0, 1, len(ws) - 1, len(ws), len(ws) + 1, 2 * len(ws) + 1, 17):
                 cases.append({"n": n, "wells": {"shape": "list", "v": list(ws)}})
         cases.append({"n": 5, "wells": {"shape": "2d", "v": [["B01", "A01"], ["A01", "B01"]]}})
+        # 2-D collections given as nested Python lists / tuples instead of arrays (read column-major all the same)
+        for k in (2, 3, 8):
+            for n in (0, 1, k, 2 * k, 2 * k + 1, 5 * k):
+                for shape in ("2d_col", "2d"):
+                    w = wells_arg(rng, k, shape)
+                    cases.append({"n": n, "wells": dict(w, nested=rng.choice(["list", "tuple"]))})
         # the caller changes the returned list in place, then asks again (same n, same wells)
         for k in (1, 3, 8):
             for seq in ([k + 2, k + 2, k + 2], [2 * k, 3, 2 * k, 3], [5, 0, 5]):
@@ -92,6 +98,8 @@ class TroughSuite:
         import robotools
 
         wells = np_arg(case["wells"])
+        if case["wells"].get("nested") and case["wells"]["shape"] == "2d":
+            wells = [list(r) for r in case["wells"]["v"]] if case["wells"]["nested"] == "list" else tuple(tuple(r) for r in case["wells"]["v"])
         original = copy.deepcopy(wells)
 
         def one(n):
@@ -110,7 +118,7 @@ class TroughSuite:
 
         first = one(self._n(case))
         first["more"] = [one(n) for n in case.get("more", [])]
-        same = (wells == original) if isinstance(wells, (list, str)) else bool((wells == original).all())
+        same = (wells == original) if isinstance(wells, (list, tuple, str)) else bool((wells == original).all())
         first["argument_unchanged"] = bool(same)
         return first
 
